@@ -18,10 +18,11 @@ const (
 	SBytes Sort = "Bytes" // []byte, string
 	SSeqB  Sort = "SeqB"  // []string, [][]byte
 	SSeqI  Sort = "SeqI"  // []int, []*T, []iface, []func
+	SSeqC  Sort = "SeqC"  // [][]string, [][][]byte (regexp FindAllSubmatch); its theory is added only to queries that use it
 	SNone  Sort = ""      // no value (unit / tuple)
 )
 
-func (s Sort) isSeq() bool { return s == SBytes || s == SSeqB || s == SSeqI }
+func (s Sort) isSeq() bool { return s == SBytes || s == SSeqB || s == SSeqI || s == SSeqC }
 
 // suffix used in function names of the sequence theory
 func (s Sort) sfx() string {
@@ -32,6 +33,8 @@ func (s Sort) sfx() string {
 		return "B"
 	case SSeqI:
 		return "I"
+	case SSeqC:
+		return "C"
 	}
 	panic(unsupported{"a sequence nested deeper than the encoding supports (sort " + string(s) + " where a sequence sort is needed, e.g. [][][]byte)"})
 }
@@ -42,6 +45,8 @@ func (s Sort) elem() Sort {
 		return SInt
 	case SSeqB:
 		return SBytes
+	case SSeqC:
+		return SSeqB
 	}
 	panic("not a seq sort: " + string(s))
 }
@@ -52,8 +57,20 @@ func seqOf(elem Sort) (Sort, bool) {
 		return SSeqI, true
 	case SBytes:
 		return SSeqB, true
+	case SSeqB:
+		return SSeqC, true
 	}
 	return SNone, false
+}
+
+// PreludeC: the sequence theory for SeqC (sequences of SeqB), appended only to queries that mention it
+func PreludeC() string {
+	var b strings.Builder
+	b.WriteString("(declare-sort SeqC 0)\n")
+	b.WriteString(seqPrelude("C", "SeqC", "SeqB", ""))
+	b.WriteString("(declare-fun seqeq_C (SeqC SeqC) Bool)\n(assert (forall ((a SeqC) (b SeqC)) (! (=> (seqeq_C a b) (= a b)) :pattern ((seqeq_C a b)))))\n")
+	b.WriteString("(declare-fun inj_C (SeqC) Int)\n(declare-fun prj_C (Int) SeqC)\n(assert (forall ((s SeqC)) (! (= (prj_C (inj_C s)) s) :pattern ((inj_C s)))))\n(declare-fun touch_SeqB (SeqB) Bool)\n")
+	return b.String()
 }
 
 type Term struct {
@@ -184,9 +201,10 @@ func ite(c, a, b Term) Term {
 	return Term{S: "(ite " + c.S + " " + a.S + " " + b.S + ")", Sort: a.Sort, GoT: a.GoT}
 }
 
-func lenOf(s Term) Term  { return mk(SInt, "(len_%s %s)", s.Sort.sfx(), s.S) }
-func capOf(s Term) Term  { return mk(SInt, "(cap_%s %s)", s.Sort.sfx(), s.S) }
+func lenOf(s Term) Term   { return mk(SInt, "(len_%s %s)", s.Sort.sfx(), s.S) }
+func capOf(s Term) Term   { return mk(SInt, "(cap_%s %s)", s.Sort.sfx(), s.S) }
 func atOf(s, i Term) Term { return mk(s.Sort.elem(), "(at_%s %s %s)", s.Sort.sfx(), s.S, i.S) }
+
 // theLits: the literal table of the running verifier (for folding concatenations of literals)
 var theLits *LitTable
 
@@ -215,6 +233,7 @@ func sliceOf(s, lo, hi Term) Term {
 	return Term{S: fmt.Sprintf("(slice_%s %s %s %s)", s.Sort.sfx(), s.S, lo.S, hi.S), Sort: s.Sort, GoT: s.GoT}
 }
 func singleOf(seq Sort, e Term) Term { return mk(seq, "(single_%s %s)", seq.sfx(), e.S) }
+
 type updRec struct{ base, idx, val Term }
 
 // updInfo remembers the structure of upd terms so that reads at literal indices simplify syntactically
@@ -253,7 +272,6 @@ func litElem(s Term, k string) (Term, bool) {
 }
 func emptyOf(seq Sort) Term { return mk(seq, "empty_%s", seq.sfx()) }
 func nilOf(seq Sort) Term   { return emptyOf(seq) }
-
 
 type stoRec struct{ base, idx, val Term }
 
@@ -362,7 +380,9 @@ type LitTable struct {
 	order     []string
 }
 
-func NewLitTable() *LitTable { return &LitTable{byContent: map[string]string{}, byName: map[string]string{}} }
+func NewLitTable() *LitTable {
+	return &LitTable{byContent: map[string]string{}, byName: map[string]string{}}
+}
 
 func (lt *LitTable) content(name string) (string, bool) {
 	if name == "empty_Y" {
